@@ -308,6 +308,43 @@ def parse_line(line):
     return status.strip(), pkts
 
 
+GEN = common.LEAN / 'Sc3Verif' / 'C17' / 'GenActions.lean'
+
+
+def gen_actions(repo):
+    """translator (T): the literal dict `Node.add_actions` of node.py -> Lean tables"""
+    tree = ast.parse((repo / 'sc3' / 'synth' / 'node.py').read_text())
+    table = None
+    for c in ast.walk(tree):
+        if isinstance(c, ast.ClassDef) and c.name == 'Node':
+            for st in c.body:
+                if isinstance(st, ast.Assign) and len(st.targets) == 1 and ast.unparse(st.targets[0]) == 'add_actions':
+                    table = ast.literal_eval(st.value)
+    if not isinstance(table, dict):
+        raise ValueError('Node.add_actions is not a literal dict')
+    strs, ints = [], []
+    for k, v in table.items():
+        if type(v) is not int:
+            raise ValueError(f'add action value {v!r} is not an int')
+        if type(k) is str:
+            strs.append((k, v))
+        elif type(k) is int:
+            ints.append((k, v))
+        else:
+            raise ValueError(f'add action key {k!r}')
+    out = ['/- GENERATED by harness/props/c17.py from sc3/synth/node.py (Node.add_actions).',
+           '   Do not edit: rewritten on every run of ./check C17. -/',
+           'namespace Sc3Verif.C17', '',
+           '/-- string keys of `Node.add_actions` -/',
+           'def addActionsStr : List (String × Int) :=',
+           '  [' + ', '.join(f'("{k}", {v})' for k, v in strs) + ']', '',
+           '/-- int keys of `Node.add_actions` -/',
+           'def addActionsInt : List (Int × Int) :=',
+           '  [' + ', '.join(f'({k}, {v})' for k, v in ints) + ']', '',
+           'end Sc3Verif.C17', '']
+    return '\n'.join(out)
+
+
 class Check(common.Check):
     PROP = 'C17'
     LEAN_TARGETS = ['Sc3Verif.C17.Props']
@@ -316,6 +353,15 @@ class Check(common.Check):
     N_QUICK = 400
     N_THOROUGH = 6000
     ASSUMPTIONS = []
+
+    def regen(self):
+        try:
+            text = gen_actions(common.REPO)
+        except (OSError, SyntaxError, ValueError) as e:
+            return f'node.py add_actions: {e}'
+        if not GEN.exists() or GEN.read_text() != text:
+            GEN.write_text(text)
+        return None
 
     def rule(self):
         return ('histories of 3-60 client calls on a fresh real Server (client id 0-3, dyadic latency or None): '
@@ -582,6 +628,29 @@ class Check(common.Check):
             return None
         for r, q in zip(res, rt):
             r['rt'] = q['wire']
+        return res
+
+    def model(self, cases):
+        lines = []
+        for c in cases:
+            o = c.get('opts', {})
+            lat = o.get('latency')
+            lines.append('reset')
+            lines.append(f"server {o.get('client_id', 0)} {o.get('max_logins', 1)} {o.get('buffers', 1024)} "
+                         f"{'N' if lat is None else lat}")
+            lines.extend(c['ops'])
+            lines.append('eof')
+        out, err = common.run_driver('Sc3Verif/C17/Driver.lean', lines)
+        if out is None:
+            raise RuntimeError('driver failed: ' + err)
+        res, cur = [], None
+        for l in out:
+            if l == 'reset':
+                cur = []; res.append(cur)
+            elif l == 'server ok':
+                continue
+            else:
+                cur.append(l)
         return res
 
     def compare(self, case, impl_out, model_out):
